@@ -39,6 +39,11 @@ class ExecutionContext:
 
         return result
 
+    def __CastValue(self, value, convert):
+        if isinstance(value, list):
+            return [self.__CastValue(v, convert) for v in value]
+        return convert(value)
+
     def __CreateInstance(self, varType: LinearIR.Type):
         if varType.IsPrimitive():
             return self.__CreatePrimitiveInstance(varType)
@@ -303,20 +308,25 @@ class ExecutionContext:
                     ref = instruction.Reference
                     var = localScope[instruction.Value.Reference]
 
-                    assert instruction.Type.IsScalar()
+                    # Vectors and matrices are cast component by component
+                    targetType = instruction.Type
+                    if targetType.IsVector() or targetType.IsMatrix():
+                        targetType = targetType.ElementType
 
-                    if isinstance(instruction.Type, LinearIR.IntegerType):
-                        if not instruction.Type.Unsigned:
-                            var = math.floor(var)
+                    assert targetType.IsScalar()
+
+                    if isinstance(targetType, LinearIR.IntegerType):
+                        if not targetType.Unsigned:
+                            convert = lambda v: math.floor(v)
                         else:
-                            var = abs(math.floor(var))
+                            convert = lambda v: abs(math.floor(v))
                     else:
                         # Must be float
-                        assert isinstance(instruction.Type, LinearIR.FloatType)
+                        assert isinstance(targetType, LinearIR.FloatType)
 
-                        var = float(var)
+                        convert = lambda v: float(v)
 
-                    localScope[ref] = var
+                    localScope[ref] = self.__CastValue(var, convert)
                 case LinearIR.OpCode.CONSTRUCT_PRIMITIVE:
                     ref = instruction.Reference
                     if instruction.Type.Kind == LinearIR.TypeKind.Vector:
